@@ -67,10 +67,16 @@ func main() {
 	c.Finish(vlib.FinishOpts{
 		Rule: "a comparison = one program (generated from vlib/gcnasm or shipped) run in emulation (twice, self-stability) and on one timing platform variant, " +
 			"every device buffer read back with MemCopyD2H and every wavefront's (pc, format, opcode) sequence compared; " +
-			"non-trivial = distinct (program, timing platform) pair with at least one memory instruction and at least two wavefronts whose comparison was carried out to the end",
+			"non-trivial = distinct (program, timing platform) pair with at least one memory instruction and at least two wavefronts whose comparison was carried out to the end; " +
+			"counters motif|* = instances of dependent-load sequences with nothing but s_waitcnt / s_nop between a load's return and the next reader of the loaded register " +
+			"(scalar / vector pointer chasing through one register pair, destination overlapping the base partially, loaded register first consumed by compare+branch, by the next load's offset or scalar base, " +
+			"re-read of an operand across the return of a load into it) in programs whose comparison held; " +
+			"motif|lds-read-before-write = LDS reads of words the work-group has not written (then written with non-zero data), in grids with more work-groups than compute units and in pairs of launches",
 		Assumptions: []string{
 			"generated programs are race-free by construction (every work-item owns its output slots and its LDS slot; LDS exchanges are fenced by s_barrier on both sides; loaded registers are consumed only after s_waitcnt covers them; non-zero vmcnt is relied upon for in-order return only for CDNA3 global_* loads)",
 			"operations a kernel leaves un-waited before s_endpgm (scalar / vector loads into registers that were dumped before, a store to a dword nothing reads, an LDS write) are legal: s_endpgm has to keep the wavefront's registers until they have returned; every kernel writes long-lived values into low and high SGPRs/VGPRs first and dumps them last, so that anything a retired wavefront left in flight shows in a recycled register slot",
+			"nothing is assumed about the contents of LDS words a work-group reads before writing them except that both modes agree (both give a work-group a zero-filled LDS on the unchanged tree); such reads touch only the work-item's own LDS locations",
+			"the pointer / index tables the dependent-load motifs walk are prepared by the host after allocation (device addresses are the same in both modes; checked), every address they hold is mapped, and no kernel writes them",
 			"a program whose two emulation runs differ, or that emulation cannot run, is a generator / workload problem (inconclusive), not a finding",
 			"features for which the canonical battery reproduces an open keyed finding are not used by seeded programs of the same platform pair (so that one finding does not hide the rest); the canonical battery keeps them",
 			"deadlock = engine not running, not kicked and no application progress over a long run of observations; the wall-clock watchdog only yields inconclusive",
@@ -78,7 +84,12 @@ func main() {
 		MinNontrivial: c.N(80, 800),
 		MinCounters: map[string]int64{"programs_compared": int64(c.N(100, 1000)), "wavefronts_compared": int64(c.N(400, 5000)),
 			"instructions_compared": int64(c.N(80000, 1000000)), "buffers_compared": int64(c.N(500, 5000)), "shipped_compared": int64(c.N(5, 20)),
-			"emulation_self_stable": int64(c.N(100, 600))},
+			"emulation_self_stable": int64(c.N(100, 600)),
+			"motif|scalar-pointer-chase": int64(c.N(10, 40)), "motif|scalar-chase-partial-overlap": int64(c.N(10, 40)),
+			"motif|vector-pointer-chase": int64(c.N(10, 40)), "motif|vector-chase-to-store": int64(c.N(10, 40)),
+			"motif|load-to-branch": int64(c.N(10, 40)), "motif|load-to-smem-offset": int64(c.N(10, 40)),
+			"motif|load-to-saddr": int64(c.N(5, 20)), "motif|reread-across-load-return": int64(c.N(10, 40)),
+			"motif|lds-read-before-write": int64(c.N(10, 40))},
 	})
 }
 
@@ -199,6 +210,20 @@ func probeSpec(arch, f string) ProgSpec {
 		allow = append(allow, "ld_x2", "ld_x4")
 	case "sgpr64", "readfirstlane":
 		allow = append(allow, "salu")
+	case "chase_v", "chase_v_st", "reread":
+		allow = append(allow, "diamond", "loop_uniform")
+	case "lds_rbw":
+		// 256 one-wavefront work-groups (more than the 64 compute units of an
+		// emulation GPU, so that compute units run several groups one after
+		// another), then a second, smaller launch in the same process. Every
+		// work-item reads LDS words before anything wrote them in its group and
+		// writes non-zero data afterwards; ds_read / read2 / b64 forms; partial
+		// writes; kernel 0 declares a bigger LDS than kernel 1.
+		return ProgSpec{ID: "probe-" + arch + "-" + f, Arch: arch, Seed: hash64("C02/probe/" + f), Allow: append(allow, "multi_kernel"),
+			Force: []string{"lds_rbw", "multi_kernel"}, Probe: f,
+			Geo:  &Launch{Grid: [3]uint32{4096, 1, 1}, WG: [3]uint16{16, 1, 1}},
+			Geo2: &Launch{Grid: [3]uint32{1024, 1, 1}, WG: [3]uint16{16, 1, 1}},
+			Script: []string{"k0: ldsrbw b32 1 0 1", "ldsrbw b32 2 0 0", "ldsrbw r2b32 5 1 2", "ldsrbw b64 3 0 0", "ldsrbw r2b64 0 2 0", "k1: ldsrbw r2b64 1 3 2", "alu 2"}}
 	case "dims2", "dims3":
 		if arch == "cdna3" {
 			// probed together with the packed ids by v5_ids_yz
@@ -262,6 +287,16 @@ func canonMix(arch string, k int) ProgSpec {
 	return ProgSpec{ID: fmt.Sprintf("canon-mix%d-%s", k, arch), Arch: arch, Seed: hash64(fmt.Sprintf("C02/canon-mix/%d", k)), Allow: allow, Force: force, Size: 1}
 }
 
+// canonMotif is the fixed program that carries every dependent-load motif
+// (motif.go) onto every knob variant.
+func canonMotif(arch string) ProgSpec {
+	allow := append([]string{}, baseFeatures...)
+	allow = append(allow, "ld_x2", "st_x2", "smem_x2", "diamond", "loop_uniform")
+	allow = append(allow, motifsOf(arch)...)
+	return ProgSpec{ID: "canon-motif-" + arch, Arch: arch, Seed: hash64("C02/canon-motif"), Allow: allow, Force: motifsOf(arch),
+		Geo: &Launch{Grid: [3]uint32{320, 1, 1}, WG: [3]uint16{64, 1, 1}}}
+}
+
 func (o *orch) run() {
 	c := o.c
 	only := os.Getenv("C02_ONLY") // debugging aid: substring filter on job ids
@@ -290,6 +325,16 @@ func (o *orch) run() {
 			sp := canonMix(p.Arch, k)
 			ts := []PlatSpec{p.Timing}
 			ts = append(ts, variants(p)...)
+			jobsA = append(jobsA, &job{id: sp.ID, pair: p, prog: &sp, timing: ts, scope: "variant"})
+		}
+		{
+			sp := canonMotif(p.Arch)
+			ts := []PlatSpec{p.Timing}
+			for _, v := range variants(p) {
+				if !v.Magic { // the copy path (open finding) is canon-mix's business
+					ts = append(ts, v)
+				}
+			}
 			jobsA = append(jobsA, &job{id: sp.ID, pair: p, prog: &sp, timing: ts, scope: "variant"})
 		}
 	}
@@ -514,7 +559,13 @@ func (o *orch) runJobs(jobs []*job) {
 		t0 := time.Now()
 		o.runJob(jobs[i])
 		if os.Getenv("C02_TIMES") != "" {
-			fmt.Printf("[C02] time %-40s %6.1fs\n", jobs[i].id, time.Since(t0).Seconds())
+			extra := ""
+			if jobs[i].prog != nil {
+				if pg, err := BuildProgram(*jobs[i].prog); err == nil {
+					extra = fmt.Sprintf("  kernels=%d %v", len(pg.Kernels), pg.features())
+				}
+			}
+			fmt.Printf("[C02] time %-40s %6.1fs%s\n", jobs[i].id, time.Since(t0).Seconds(), extra)
 		}
 	})
 }
@@ -529,7 +580,21 @@ func listMain() {
 				continue
 			}
 			for _, k := range prog.Kernels {
-				fmt.Printf("%s: launch=%v insts=%d mem=%d feat=%v\n", sp.ID, k.L, k.NInst, k.NMem, k.Feat)
+				fmt.Printf("%s: launch=%v insts=%d mem=%d feat=%v code=%016x tab=%d\n", sp.ID, k.L, k.NInst, k.NMem, k.Feat, hash64(string(k.CO.Data)), prog.TabSize)
+			}
+		}
+		for k := 0; k < 3; k++ {
+			sp := canonMix(p.Arch, k)
+			if k == 2 {
+				sp = canonMotif(p.Arch)
+			}
+			prog, err := BuildProgram(sp)
+			if err != nil {
+				fmt.Println(sp.ID, "ERROR", err)
+				continue
+			}
+			for _, k := range prog.Kernels {
+				fmt.Printf("%s: launch=%v insts=%d mem=%d feat=%v code=%016x tab=%d\n", sp.ID, k.L, k.NInst, k.NMem, k.Feat, hash64(string(k.CO.Data)), prog.TabSize)
 			}
 		}
 	}
@@ -557,6 +622,9 @@ func specMain(args []string) {
 			f := strings.TrimPrefix(id, "probe-"+p.Arch+"-")
 			sp := probeSpec(p.Arch, f)
 			rc.Prog, rc.Scope = &sp, "probe:"+f
+		case strings.HasPrefix(id, "canon-motif"):
+			sp := canonMotif(p.Arch)
+			rc.Prog, rc.Scope = &sp, "variant"
 		case strings.HasPrefix(id, "canon-mix"):
 			k := int(id[len("canon-mix")] - '0')
 			sp := canonMix(p.Arch, k)
@@ -602,8 +670,11 @@ func disasmMain(path string) {
 			if in.FormatType == insts.FLAT {
 				extra = fmt.Sprintf("  ; offset %d saddr %v", int32(in.Offset0), in.SAddr.IntValue)
 			}
-			if in.FormatType == insts.SMEM || in.FormatType == insts.DS {
+			if in.FormatType == insts.DS {
 				extra = fmt.Sprintf("  ; offset0 %d offset1 %d", in.Offset0, in.Offset1)
+			}
+			if in.FormatType == insts.SMEM && in.Offset != nil {
+				extra = "  ; offset " + in.Offset.String()
 			}
 			fmt.Printf("%4d %5x: %s%s\n", n, pc, insts.NewInstPrinter(nil).Print(in), extra)
 			buf = buf[in.ByteSize:]
